@@ -1,3 +1,4 @@
+// unit `itr`: DiffOp / Change / Capture / ChangesIter / AllChangesIter (C13), UnifiedHunkHeader arithmetic (C05)
 //@@ include prelude.rs
 //@@ include hook.rs
 //@@ include algutils.rs
@@ -5,4 +6,8 @@
 //@@ include capture.rs
 //@@ include iter.rs
 //@@ include udiffhdr.rs
+//@@ props ^DiffOp::|^Change:: : C13
+//@@ props ^Capture::|^DiffHook for Capture::|^lemma_apply_capture|^lemma_evs_of : C13
+//@@ props ^ChangesIter::|^AllChangesIter:: : C13
+//@@ props ^UnifiedHunkHeader::|^UnifiedDiffHunkRange::|^lemma_hunk_counts$|^lemma_header_counts$|^lemma_count_ : C05
 fn main() {}
